@@ -40,6 +40,7 @@ type Sim struct {
 	provoke       bool // this run may walk into known lnd findings
 	ioEvent       bool // the event being generated carries an injected store fault
 	burstAmp      map[int]bool
+	acctPrev      map[uint64]invoices.ContractState
 
 	now    time.Time
 	height uint32
@@ -105,6 +106,7 @@ func Run(r *simcore.Run) {
 	s := &Sim{
 		r: r, cfg: cfg, k: k, now: simStart, height: startHeight,
 		byKey: map[invoices.CircuitKey]*HtlcSpec{}, refSeen: map[string]bool{},
+		acctPrev:      map[uint64]invoices.ContractState{},
 		nextID:        make([]uint64, cfg.Links),
 		strictKeysend: os.Getenv("VERIF_C15_STRICT_KEYSEND") != "",
 		provoke:       provoke,
@@ -282,8 +284,9 @@ func (s *Sim) step() {
 	base := strings.SplitN(ev.Kind, "!", 2)[0]
 	switch base {
 	case "time":
-		durs := []time.Duration{time.Second, 3 * time.Second, (s.cfg.HoldDuration - 500*time.Millisecond) / 2,
-			s.cfg.HoldDuration + time.Second, 41 * time.Second, 95 * time.Second, 301 * time.Second}
+		half := (s.cfg.HoldDuration - 500*time.Millisecond) / 2
+		durs := []time.Duration{time.Second, 3 * time.Second, half, s.cfg.HoldDuration + time.Second,
+			time.Second, half, s.cfg.HoldDuration + time.Second, 41 * time.Second, 95 * time.Second, 301 * time.Second, 3601 * time.Second}
 		dur = durs[r.Draw(len(durs))]
 	case "block":
 		dhs := []uint32{1, 1, 2, 5, 20, uint32(s.cfg.RejectDelta)}
@@ -598,6 +601,21 @@ func (s *Sim) account(ev *Event, obs *Obs) {
 			continue
 		}
 		seen[p.AddIndex] = true
+		if old := s.acctPrev[p.AddIndex]; old != p.State {
+			s.acctPrev[p.AddIndex] = p.State
+			switch {
+			case p.State == invoices.ContractCanceled && ev.Kind == "time":
+				r.Count("fault_invoice_expired_by_time")
+			case p.State == invoices.ContractCanceled && ev.Kind == "block":
+				r.Count("fault_hold_invoice_expired_by_height")
+			case p.State == invoices.ContractCanceled:
+				r.Count("probe_invoice_canceled_by_call")
+			case p.State == invoices.ContractSettled && p.Hodl:
+				r.Count("probe_hold_invoice_settled")
+			case p.State == invoices.ContractAccepted:
+				r.Count("probe_hold_invoice_accepted")
+			}
+		}
 		var a, st, c int
 		for _, h := range p.Htlcs {
 			switch h.State {
